@@ -65,6 +65,8 @@ UF_INTERP = {}          # name -> python callable on floats
 def const(v, sort):
     if sort == "Real":
         v = Fraction(v)
+        if CONCRETE["on"] and v.denominator.bit_length() > 320:
+            v = Fraction(float(v))          # concrete (hinted / replay) mode: binary64 precision is enough (tolerant comparisons)
     elif sort == "Int":
         v = int(v)
     elif sort == "Bool":
